@@ -72,7 +72,11 @@ func HashName(field string) string {
 func RemoveElementAfter(slice []string, marker string) []string {
 	for i, v := range slice {
 		if v == marker && i+1 < len(slice) {
-			return append(slice[:i+1], slice[i+2:]...)
+			// build the result in a slice of its own: appending to slice[:i+1] would shift the
+			// elements of the caller's key path in place
+			out := make([]string, 0, len(slice)-1)
+			out = append(out, slice[:i+1]...)
+			return append(out, slice[i+2:]...)
 		}
 	}
 	return slice
